@@ -37,6 +37,9 @@ pub enum Trace {
     /// a history: the earlier traces are executed first, in the same process, and only the last one is
     /// judged (defects that need state carried over from an earlier call)
     Seq(Vec<Trace>),
+    /// run indices of one check executed in this order in one process: the last one's event log must be
+    /// what the same index gives when it is the only thing a fresh process executes
+    SeedSeq { check: String, tier: Tier, base: u64, indices: Vec<u64> },
 }
 
 #[derive(Clone, Debug, Serialize, Deserialize)]
@@ -568,6 +571,7 @@ pub fn replay_trace(prop: &str, trace: &Trace, scratch: &Scratch) -> Vec<Finding
         Trace::Recorder(t) => crate::recorder::replay(prop, t, scratch, &mut rec),
         Trace::Rules(t) => crate::rules::replay(prop, t, scratch, &mut rec),
         Trace::Bytes(t) => crate::crash::replay(prop, t, &mut rec),
+        Trace::SeedSeq { .. } => vec![],
         Trace::Seq(ts) if ts.iter().all(|t| matches!(t, Trace::Ceremony(_))) => {
             let cs: Vec<&crate::ceremony::CeremonyTrace> = ts.iter().filter_map(|t| if let Trace::Ceremony(c) = t { Some(c) } else { None }).collect();
             crate::ceremony::replay_seq(prop, &cs, &mut rec)
